@@ -242,4 +242,9 @@ def rule_effects(ctx):
                                 "site that edits, creates, deletes or moves a non-newline chunk after tokenization is reachable")
 
 
-RULES = [rule_lossless_tokenizer, rule_output_once, rule_fusion_guard, rule_no_overlap, rule_nl_in_preproc, rule_effects]
+def rule_newline_crossing(ctx):
+    from .common_effects import newline_crossing_rule
+    newline_crossing_rule(ctx)
+
+
+RULES = [rule_lossless_tokenizer, rule_output_once, rule_fusion_guard, rule_no_overlap, rule_nl_in_preproc, rule_effects, rule_newline_crossing]
